@@ -87,7 +87,7 @@ def make_oracle(F):
                     return new_vec(interp, ev.data[1].fields)
         if dk == "core::clone::Clone::clone":
             return TOP
-        if f.get("kind") == "def" and is_comp_ty(ret) and not inline_pred(k):
+        if f.get("kind") == "def" and is_comp_ty(ret) and not inline_pred(k) and (k.startswith("mahf::") or k.startswith("<mahf::")):
             kind = "condition" if "dyn mahf::conditions::Condition<" in ret else "component"
             ty = f.get("self_adt") or k
             leaf = Agg("leaf", None, None, [Leaf(kind, ty, k, [a for a in args], f.get("gargs"), t.get("line"))])
